@@ -259,15 +259,36 @@ def _value_const_ints(val: Optional[ir.Value]) -> Optional[Tuple[int, ...]]:
 
 
 def _shapes_compatible(a: Optional[ir.Value], b: Optional[ir.Value]) -> bool:
-    ta, tb = _shape_tuple(a), _shape_tuple(b)
-    if ta is None or tb is None or len(ta) != len(tb):
+    """Whether ``a`` and ``b`` provably have the same runtime shape.
+
+    Static dims must be equal and symbolic dims must be the *same* symbol; two
+    different symbols (or an unknown dim) are not interchangeable.  Because both
+    values hold the same number of elements, a single unresolved position is
+    still implied equal when every other dim is an equal positive integer.
+    """
+    if a is None or b is None:
         return False
-    for da, db in zip(ta, tb):
-        if da == -1 or db == -1:
+    da, db = _shape_dims_seq(a.shape), _shape_dims_seq(b.shape)
+    if da is None or db is None or len(da) != len(db):
+        return False
+    unresolved = 0
+    all_static_positive = True
+    for dim_a, dim_b in zip(da, db):
+        tok_a, tok_b = _dim_token(dim_a), _dim_token(dim_b)
+        if tok_a[0] == "int" and tok_b[0] == "int":
+            if tok_a[1] != tok_b[1]:
+                return False
+            if tok_a[1] <= 0:
+                all_static_positive = False
             continue
-        if da != db:
-            return False
-    return True
+        if tok_a == tok_b and tok_a[1] is not None:
+            # The same named symbol on both sides (its runtime size may be 0).
+            all_static_positive = False
+            continue
+        unresolved += 1
+    if unresolved == 0:
+        return True
+    return unresolved == 1 and all_static_positive
 
 
 # ---------------- Attr access ----------------
